@@ -3,67 +3,89 @@
 
    Models: Annot/Routes.v (route_ast = annotations._Visitor + _type_from_value,
    also used for every string; route_runtime = _type_from_runtime on the
-   evaluated object; route_visitor = value_of_annotation) and Annot/DefSig.v
-   (compute_parameters vs from_signature).  They are tied to the real code by
-   harness/c13.py; that the model of "what evaluating E produces" matches
-   CPython's typing module is part of that correspondence, not a theorem. *)
+   evaluated object; route_visitor = value_of_annotation), Annot/DefSig.v
+   (compute_parameters vs from_signature) and the binder of C05 for calls.
+   The per-form behaviour of both evaluators and the kind logic of both
+   signature builders come from PV.Gen.Annot (regenerated from annotations.py,
+   functions.py and arg_spec.py on every run); the rest is tied to the real code
+   by harness/c13.py.  That "what evaluating E produces" matches CPython's typing
+   module is part of that correspondence, not a theorem. *)
 From Coq Require Import NArith ZArith List Bool.
 Import ListNotations.
-Require Import PV.Annot.Routes PV.Annot.DefSig PV.Proofs.AnnotRoutes.
+Require Import PV.Annot.Forms PV.Gen.Annot PV.Annot.Routes PV.Annot.DefSig PV.Proofs.AnnotRoutes.
 
-(* the full statement: every route gives the same type for every expression *)
-Definition C13_routes_commute_full_statement : Prop := routes_commute_full_statement.
+(* ---- generated tables meet what the proofs rely on ----------------------- *)
 
-Theorem C13_routes_commute_full_statement_refuted : ~ C13_routes_commute_full_statement.
-Proof. exact routes_commute_full_statement_refuted. Qed.
-Print Assumptions C13_routes_commute_full_statement_refuted.
+Theorem C13_gen_tables_agree :
+  act ast_table FUnion = act rt_table FUnion /\ act ast_table FLiteral = act rt_table FLiteral /\
+  act ast_table FTupleVar = act rt_table FTupleVar /\ act ast_table FTupleEmpty = act rt_table FTupleEmpty /\
+  act ast_table FTupleFixed = act rt_table FTupleFixed /\ act ast_table FType = act rt_table FType /\
+  act ast_table FAnnotated = act rt_table FAnnotated /\ act ast_table FFinal = act rt_table FFinal /\
+  act ast_table FClassVar = act rt_table FClassVar /\ act ast_table FUnpack = act rt_table FUnpack /\
+  act ast_table FCallable = act rt_table FCallable /\ act ast_table FGenericClass = act rt_table FGenericClass.
+Proof. exact tables_agree. Qed.
+Print Assumptions C13_gen_tables_agree.
 
-(* outside the three refuted classes: for annotation expressions of any
-   nesting depth, value(E via AST) = value("E" via string) = value(eval(E) via
-   runtime) = value(E written in the checked module) *)
-Theorem C13_routes_commute_partial : forall e, routes_guard e = true ->
+Theorem C13_gen_tables_optional :
+  (exists b, act ast_table FOptional = Some (ActOptional b)) /\ act rt_table FUnion = Some ActUniteMembers.
+Proof. exact tables_optional. Qed.
+Print Assumptions C13_gen_tables_optional.
+
+Theorem C13_gen_tables_literal_star :
+  act ast_table FLiteral = Some (ActUniteLiterals true) /\ ast_visit_starred = true /\
+  act rt_table FTupleFixed = Some ActSeqMembers /\ act rt_table FUnpack = Some ActUnpacked.
+Proof. exact tables_literal_star. Qed.
+Print Assumptions C13_gen_tables_literal_star.
+
+Theorem C13_gen_signature_builders :
+  def_kind_order = [PosOnly; PosOrKw; VarPos; KwOnly; VarKw] /\
+  (forall k pr, rt_kind k pr = if (match k with PosOrKw => true | _ => false end) && pr then (PosOnly, true) else (k, false)) /\
+  (forall k v, gen_wrap k v = match k with VarPos => TGeneric tuple_c [v] | VarKw => TGeneric dict_c [TTyped str_c; v] | _ => v end).
+Proof. exact (conj gen_def_kind_order (conj gen_rt_kind gen_wrap_spec)). Qed.
+Print Assumptions C13_gen_signature_builders.
+
+(* full strength (on the tree with the three C13 repairs): for every annotation
+   expression of the vocabulary, of any nesting depth,
+   value(E via AST) = value("E" via string) = value(eval(E) via runtime)
+   = value(E written in the checked module) *)
+Theorem C13_routes_commute : forall e,
   route_runtime e = route_ast e /\ route_ast (EStr e) = route_ast e /\ route_visitor e = route_ast e /\
   route_visitor (EStr e) = route_ast e /\ route_runtime (EStr e) = route_ast e.
-Proof. exact routes_commute_partial. Qed.
-Print Assumptions C13_routes_commute_partial.
+Proof. exact routes_commute_all. Qed.
+Print Assumptions C13_routes_commute.
 
 (* Optional[X] is None|X on one route and X|None on the other: one value *)
 Theorem C13_optional_order_irrelevant : forall v, unite [TNone; v] = unite [v; TNone].
 Proof. exact unite_optional_comm. Qed.
 Print Assumptions C13_optional_order_irrelevant.
 
-(* one refutation per guard clause *)
-Theorem C13_routes_refuted_final :
-  route_runtime (EFinal (EClass 1)) = TTyped 1 /\ route_ast (EFinal (EClass 1)) = TErr.
-Proof. exact routes_refuted_final. Qed.
-Print Assumptions C13_routes_refuted_final.
+(* the forms that diverged before the repairs *)
+Theorem C13_routes_repaired_forms :
+  route_ast (EFinal (EClass 1)) = TTyped 1 /\ route_ast (EClassVar (EOptional (EClass 1))) = TUnion true [TTyped 1] /\
+  route_ast (ELitNested [1%Z] [2%Z]) = TUnion false [TLit 1; TLit 2] /\
+  route_runtime (ELitNested [1%Z] [2%Z]) = TUnion false [TLit 1; TLit 2] /\
+  route_ast (EStarTuple [EClass 1] (EClass 2)) = TSeq [(false, TTyped 1); (true, TTyped 2)] /\
+  route_runtime (EStarTuple [EClass 1] (EClass 2)) = TSeq [(false, TTyped 1); (true, TTyped 2)] /\
+  route_ast (EStarTuple [EClass 1] (EClass 2)) = route_ast (EUnpackTuple [EClass 1] (EClass 2)).
+Proof. exact routes_repaired_forms. Qed.
+Print Assumptions C13_routes_repaired_forms.
 
-Theorem C13_routes_refuted_nested_literal :
-  route_runtime (ELitNested [1%Z] [2%Z]) = TUnion false [TLit 1; TLit 2] /\ route_ast (ELitNested [1%Z] [2%Z]) = TErr.
-Proof. exact routes_refuted_nested_literal. Qed.
-Print Assumptions C13_routes_refuted_nested_literal.
-
-Theorem C13_routes_refuted_star :
-  route_runtime (EStarTuple [EClass 1] (EClass 2)) = TSeq [(false, TTyped 1); (false, TGeneric tuple_c [TTyped 2])] /\
-  route_ast (EStarTuple [EClass 1] (EClass 2)) = TCrash /\
-  route_visitor (EStarTuple [EClass 1] (EClass 2)) = TSeq [(false, TAny)].
-Proof. exact routes_refuted_star. Qed.
-Print Assumptions C13_routes_refuted_star.
-
-Example C13_routes_guard_inhabited :
-  routes_guard ex_annot = true /\
+Example C13_routes_example :
+  route_runtime ex_annot = route_ast ex_annot /\
   route_ast ex_annot =
     TUnion true [TGeneric 5 [TUnion false [TTyped 1; TSeq [(false, TTyped 2); (false, TUnion false [TLit 1; TLit 2])]];
                              TCall [TUnion true [TTyped 1]] TAny]].
-Proof. exact routes_guard_inhabited. Qed.
-Print Assumptions C13_routes_guard_inhabited.
+Proof. exact routes_example. Qed.
+Print Assumptions C13_routes_example.
 
 (* parameters and return type derived from the def statement = derived from the
    runtime signature (names, kinds, defaults, annotations), for parameter lists
-   of any length, when no parameter name is "private" (__x) and every
-   annotation satisfies the routes guard *)
+   of any length and any annotations, when no parameter name is "private" (__x) *)
+Definition C13_def_sig_full_statement : Prop := forall ps,
+  map norm_sparam (sig_from_def ps) = map norm_sparam (sig_from_runtime ps).
+
 Theorem C13_def_sig_eq_runtime_sig_partial : forall ps r,
-  forallb param_ok ps = true -> match r with Some e => routes_guard e | None => true end = true ->
+  forallb param_ok ps = true ->
   map norm_sparam (sig_from_def ps) = map norm_sparam (sig_from_runtime ps) /\
   ret_from_def r = ret_from_runtime r.
 Proof. exact def_sig_eq_runtime_sig_partial. Qed.
@@ -75,6 +97,10 @@ Theorem C13_def_sig_private_refuted :
 Proof. exact def_sig_private_refuted. Qed.
 Print Assumptions C13_def_sig_private_refuted.
 
+Theorem C13_def_sig_full_statement_refuted : ~ C13_def_sig_full_statement.
+Proof. exact def_sig_full_statement_refuted. Qed.
+Print Assumptions C13_def_sig_full_statement_refuted.
+
 Example C13_def_sig_guard_inhabited :
   forallb param_ok ex_sig = true /\
   map norm_sparam (sig_from_runtime ex_sig) =
@@ -83,3 +109,35 @@ Example C13_def_sig_guard_inhabited :
      mkSParam 5 VarKw false (TGeneric dict_c [TTyped str_c; TTyped 1])].
 Proof. exact def_sig_guard_inhabited. Qed.
 Print Assumptions C13_def_sig_guard_inhabited.
+
+(* ---- calls ---------------------------------------------------------------- *)
+(* the same call (any list of raw arguments: positionals, keywords, *args and
+   **kwargs of known or unknown length), judged by the binder of C05 against
+   the signature of the def node and against the signature of the function
+   object: the same verdict, the same binding, the same declared type for every
+   bound argument -- for every parameter list without a private name *)
+Require Import PV.Annot.Calls.
+Require PV.Binder.Bind.
+
+Definition C13_call_judged_identically_full_statement : Prop := forall ps raw,
+  call_in_defining_scope ps raw = call_from_importer ps raw.
+
+Theorem C13_call_judged_identically_partial : forall ps raw,
+  forallb param_ok ps = true ->
+  call_in_defining_scope ps raw = call_from_importer ps raw.
+Proof. exact call_judged_identically_partial. Qed.
+Print Assumptions C13_call_judged_identically_partial.
+
+Theorem C13_call_private_refuted :
+  call_in_defining_scope ex_private [Bind.RKw 1; Bind.RKw 2] <> None /\
+  call_from_importer ex_private [Bind.RKw 1; Bind.RKw 2] = None /\
+  call_in_defining_scope ex_private [Bind.RPos; Bind.RPos] = call_from_importer ex_private [Bind.RPos; Bind.RPos].
+Proof. exact call_private_refuted. Qed.
+Print Assumptions C13_call_private_refuted.
+
+Example C13_call_example :
+  call_from_importer ex_sig [Bind.RPos; Bind.RPos; Bind.RPos; Bind.RKw 4; Bind.RKw 9] <> None /\
+  call_from_importer ex_sig [Bind.RKw 1] = None /\
+  call_from_importer ex_sig [] = None.
+Proof. exact call_example. Qed.
+Print Assumptions C13_call_example.
